@@ -1127,7 +1127,7 @@ def metamorphic_pairs(res, rnd, tier) -> None:
         [(3, L, pl) for L in (1, 2, 3) for pl in (False, True)] * 3 + [(4, 2, False), (4, 2, True), (4, 3, False)]
     sc = np.float32(2.0 ** -30)
     for n, limit, plus in confs:
-        for probe in ("scale", "list-identity"):
+        for probe in ("scale", "list-identity", "subnormal"):
             a, ans_a, _, _ = construct(n, limit, plus)
             b, ans_b, _, _ = construct(n, limit, plus)
             if a is None or b is None:
@@ -1142,7 +1142,10 @@ def metamorphic_pairs(res, rnd, tier) -> None:
                 try:
                     with warnings.catch_warnings():
                         warnings.simplefilter("ignore")
-                        if probe == "scale":
+                        if probe == "subnormal":
+                            # terminal values in float32's sub-normal range (~1e-42): strategies are still distributions
+                            a.regret_min_iteration((term * np.float32(2.0 ** -70)) * np.float32(2.0 ** -70), used)
+                        elif probe == "scale":
                             a.regret_min_iteration(term.copy(), used)
                             b.regret_min_iteration(term * sc, [[Coalition(c) for c in x] for x in step["used"]])
                         else:
@@ -1162,6 +1165,24 @@ def metamorphic_pairs(res, rnd, tier) -> None:
                 ra, rb = np.array(a.cumulative_regret), np.array(b.cumulative_regret)
                 want = ra * sc if probe == "scale" else ra
                 bad = None
+                if probe == "subnormal":
+                    if not finite(ra) or not finite(a.cumulative_strategy):
+                        bad = "cumulative regret / strategy (not finite)"
+                    else:
+                        for mid in [int(x) for x in a.meta_rank_to_id][:40]:
+                            for nm_, f_ in (("current", lambda: a.regret_matching_strategy(mid)), ("average", lambda: a.get_average_strategy(mid))):
+                                k_, s_ = vec_answer(f_)
+                                if k_ == "num" and s_.size and not (np.all(np.isfinite(s_)) and np.all(s_ >= 0) and abs(float(s_.sum()) - 1) < 1e-5):
+                                    bad = f"{nm_} strategy at node {mid} is not a distribution: {s_.tolist()}"
+                                    break
+                            if bad:
+                                break
+                    if bad:
+                        res.violation(f"terminal values of sub-normal float32 magnitude (~1e-42): {bad} after iteration {t + 1}",
+                                      dict(ctx, iteration=t + 1), key="regret:metamorphic:subnormal")
+                        ok = False
+                        break
+                    continue
                 if not np.array_equal(rb, want):
                     bad = "cumulative regret"
                 else:
